@@ -15,7 +15,7 @@ ASSUMPTIONS = ["tolerances fixed in advance: |Exp(Log A)-A| <= 1e-8 for every A;
                "T*T_inv-I <= 1e-10*cond(T_inv) for |psi| <= 2pi-1e-3; Spurrier unit norm 1e-12 and reproduction 1e-10",
                "input matrices are orthonormal up to accumulated rounding (<= 1e-13)",
                "reference: mpmath 50-digit models in vlib/mpref.py, validated against group axioms at start-up"]
-REQUIRED_MONITORS = ["logexp", "explog", "spurrier", "TTinv", "spin", "se3.logexp", "se3.explog", "se3.exp_vs_mp", "exp_vs_mp", "purity", "representation"]
+REQUIRED_MONITORS = ["logexp", "explog", "spurrier", "TTinv", "spin", "se3.logexp", "se3.explog", "se3.exp_vs_mp", "exp_vs_mp", "purity", "representation", "retention", "inplace_arguments"]
 META = {
     "level_text": "Exploration: round-trip identities evaluated on the return values of the real maps over hostile inputs (half turns, near half turns, tiny angles, all Spurrier branches) plus agreement with an independent 50-digit model. Held on the inputs generated.",
     "level_note": "float64; tolerances as listed in assumptions; all four Spurrier branches must be observed (else inconclusive).",
@@ -124,6 +124,13 @@ def _run_case(spec, ctx):
             for name, arg in (("Exp_SO3", psi), ("Log_SO3", A), ("Spurrier", A), ("T_SO3", psi), ("T_SO3_inv", psi), ("Exp_SE3", h), ("Log_SE3", H)):
                 thunks.append((name, {"function": name, "argument": arg}, (lambda f=getattr(R, name), a=arg: f(a.copy()))))
         purity_check(ctx, rng, thunks, mon="purity", scribble=True)
+        # results kept side by side ([Exp_SE3(h) for h in hs]) and argument arrays refilled in place between calls
+        from vlib.oracles import retention_check, inplace_check
+        retention_check(ctx, thunks, mon="retention")
+        byname = {}
+        for name, d, _ in thunks:
+            byname.setdefault(name, []).append((np.array(d["argument"], copy=True),))
+        inplace_check(ctx, [(name, getattr(R, name), sets[:6], {}) for name, sets in byname.items() if len(sets) >= 2], mon="inplace_arguments")
         # the same argument values as strided / negatively strided / read-only / Fortran-ordered arrays
         from vlib.oracles import representation_check
         calls = [(name, getattr(R, name), (np.array(d["argument"], copy=True),), {}) for name, d, _ in thunks[:70]]
